@@ -221,6 +221,10 @@ Ltac product_bounds x0 x1 x2 x3 Y :=
 Definition nobmi2_mul_part : list instr :=
   Eval cbv [concat firstn app gfpMul_nobmi2_segs] in concat (firstn 15 gfpMul_nobmi2_segs).
 
+Definition bmi2_mul_part : list instr :=
+  Eval cbv [concat firstn app gfpMul_bmi2_segs] in concat (firstn 4 gfpMul_bmi2_segs).
+Lemma bmi2_split : gfpMul_bmi2 = bmi2_mul_part ++ concat (skipn 4 gfpMul_bmi2_segs).
+Proof. reflexivity. Qed.
 Lemma nobmi2_split : gfpMul_nobmi2 = nobmi2_mul_part ++ concat (skipn 15 gfpMul_nobmi2_segs).
 Proof. reflexivity. Qed.
 
@@ -261,4 +265,41 @@ Proof.
   split; [unfold in_range; repeat constructor; open_all; lia | exact HT].
 Qed.
 
+(* MULX path: after the [mulBMI2] macro the registers R8..R15 hold a * b.  The last row folds two
+   carries into R15; its first half (the products with b0 and b2) is asserted separately. *)
+Theorem gfpMul_bmi2_product_partial :
+  exists st, exec bmi2_mul_part (init_state asm_p2 asm_np [a0;a1;a2;a3] [b0;b1;b2;b3]) = Some st /\
+             in_range (vals regs8 (mem st)) /\
+             lval (vals regs8 (mem st)) = lval [a0;a1;a2;a3] * lval [b0;b1;b2;b3].
+Proof.
+  unfold init_state, bmi2_mul_part, asm_p2, asm_np.
+  cbv [block app N.add Pos.add Pos.succ Pos.add_carry].
+  product_bounds a0 a1 a2 a3 (lval [b0;b1;b2;b3]).
+  run_segs gfpMul_bmi2_segs 0%nat 1%nat.
+  with_vals [Lr R8; Lr R9; Lr R10; Lr R11; Lr R12; Lr R13] ltac:(fun t =>
+    assert (KEEP (lval t = a0 * lval [b0;b1;b2;b3])) by arith).
+  clear_eq.
+  run_segs gfpMul_bmi2_segs 1%nat 2%nat.
+  with_vals [Lr R8; Lr R9; Lr R10; Lr R11; Lr R12; Lr R13; Lr R14] ltac:(fun t =>
+    assert (KEEP (lval t = (a0 + W * a1) * lval [b0;b1;b2;b3])) by arith).
+  clear_eq.
+  run_segs gfpMul_bmi2_segs 2%nat 3%nat.
+  with_vals regs8 ltac:(fun t =>
+    assert (KEEP (lval t = (a0 + W * (a1 + W * a2)) * lval [b0;b1;b2;b3])) by arith).
+  clear_eq.
+  assert (KEEP (0 <= a3 * b0 <= (W - 1) * (W - 1))) by (apply prod_bound; arith).
+  assert (KEEP (0 <= a3 * b2 <= (W - 1) * (W - 1))) by (apply prod_bound; arith).
+  run_n 8%nat.
+  with_vals regs8 ltac:(fun t =>
+    assert (KEEP (lval t = (a0 + W * (a1 + W * a2)) * lval [b0;b1;b2;b3] + W^3 * (a3 * b0) + W^5 * (a3 * b2)))
+      by arith).
+  clear_eq.
+  run_n 6%nat.
+  with_vals regs8 ltac:(fun t =>
+    assert (HT : KEEP (lval t = lval [a0;a1;a2;a3] * lval [b0;b1;b2;b3])) by arith).
+  clear_eq.
+  eexists; split; [reflexivity|].
+  cbv [regs8 vals map get mem loc_eqb reg_code region_code N.eqb Pos.eqb andb].
+  split; [unfold in_range; repeat constructor; open_all; lia | exact HT].
+Qed.
 End Product.
